@@ -135,6 +135,7 @@ where
             last_path: std::cell::Cell::new(0),
             budgets: std::cell::Cell::new((100_000, 100_000)),
             last_steps: std::cell::Cell::new(0),
+            caches: Vec::new(),
         }
     };
     let exiter = if early_exit { Some(nt - 1) } else { None };
